@@ -1,5 +1,5 @@
 """C17 — renumbering glyphs or rescaling the em changes nothing else."""
-import io, os
+import io, os, itertools
 from fractions import Fraction as F
 from lib.ser import Ok, Err, res, Raw, Opt
 from lib.deser import decode
@@ -134,6 +134,71 @@ def variable_test_font(empty_glyph_varies=True):
     fb.setupGvar(var)
     return fb.font
 
+def fractional_cff_font():
+    """a CFF font whose charstrings carry non-integer operands (fractional coordinates are legal Type 2 numbers)"""
+    from fontTools.fontBuilder import FontBuilder
+    from fontTools.pens.t2CharStringPen import T2CharStringPen
+    fb = FontBuilder(1000, isTTF=False)
+    order = [".notdef", "A", "B", "C"]
+    fb.setupGlyphOrder(order); fb.setupCharacterMap({65: "A", 66: "B", 67: "C"})
+    cs = {}
+    shapes = {".notdef": [("m", (50, 0)), ("l", (450, 0)), ("l", (450, 700)), ("l", (50, 700))],
+              "A": [("m", (100.5, 20.25)), ("l", (400.5, 20.25)), ("l", (250.75, 650.5))],
+              "B": [("m", (60, 10)), ("c", ((120.5, 200.25), (300.25, 400.5), (420, 610.5))), ("l", (60.5, 610.5))],
+              "C": [("m", (333.5, 111.5)), ("l", (555.5, 111.5)), ("c", ((600, 300.5), (500.5, 500), (333.5, 600.75)))]}
+    for g, segs in shapes.items():
+        pen = T2CharStringPen(500, None, roundTolerance=0)
+        for k, a in segs:
+            if k == "m": pen.moveTo(a)
+            elif k == "l": pen.lineTo(a)
+            else: pen.curveTo(*a)
+        pen.closePath(); cs[g] = pen.getCharString()
+    fb.setupCFF("Frac17", {"FullName": "Frac17"}, cs, {})
+    fb.setupHorizontalMetrics({g: (500, 50) for g in order})
+    fb.setupHorizontalHeader(ascent=800, descent=-200); fb.setupNameTable({"familyName": "Frac17", "styleName": "R"}); fb.setupOS2(); fb.setupPost()
+    return fb.font
+
+def glyph_rule_font(rng):
+    """a generated font whose contextual lookups are written with single glyphs only, several rules per lookup, so that the
+    builder picks the glyph-based formats (Context/ChainContext Subst/Pos format 1) whose rule sets are parallel to a Coverage"""
+    from fontTools.fontBuilder import FontBuilder
+    from fontTools.feaLib.builder import addOpenTypeFeaturesFromString
+    from props.C07 import _box
+    base = list("abcdefghij")
+    alts = [g + ".x" for g in base] + [g + ".y" for g in base[:5]]
+    order = [".notdef"] + base + alts
+    rng.shuffle(order); order.remove(".notdef"); order.insert(0, ".notdef")
+    adv = {g: 400 + 17 * i for i, g in enumerate(sorted(order))}
+    L = ["lookup SX {%s} SX;" % " ".join("sub %s by %s.x;" % (g, g) for g in base),
+         "lookup SY {%s} SY;" % " ".join("sub %s by %s.y;" % (g, g) for g in base[:5]),
+         "lookup PA {%s} PA;" % " ".join("pos %s %d;" % (g, 10 + 7 * i) for i, g in enumerate(base)),
+         "lookup PB {%s} PB;" % " ".join("pos %s <%d %d 0 0>;" % (g, 5 + i, -3 * i) for i, g in enumerate(base))]
+    feats = {"calt": [], "kern": []}
+    for li in range(rng.randint(2, 4)):
+        pos = rng.chance(40); chain = rng.chance(70)
+        firsts = rng.sample(base, rng.randint(2, 6)); rules = []
+        for g in firsts:
+            for _ in range(rng.randint(1, 3)):
+                tgt = rng.choice(["PA", "PB"]) if pos else ("SY" if g in base[:5] and rng.chance(40) else "SX")
+                inp = [g] + [rng.choice(base) for _ in range(rng.below(3))]
+                marked = " ".join(x + "'" + ((" lookup " + tgt) if k == 0 else "") for k, x in enumerate(inp))
+                pre = " ".join(rng.choice(base) for _ in range(rng.below(2))) if chain else ""
+                suf = " ".join(rng.choice(base) for _ in range(rng.randint(0 if pre or len(inp) > 1 else 1, 2))) if chain else ""
+                if not chain and len(inp) == 1: marked += " " + rng.choice(base) + "'"
+                rules.append("%s %s %s %s;" % ("pos" if pos else "sub", pre, marked, suf))
+        nm = "C%d" % li
+        L.append("lookup %s {\n  %s\n} %s;" % (nm, "\n  ".join(dict.fromkeys(rules)), nm))
+        feats["kern" if pos else "calt"].append(nm)
+    for t, ls in feats.items():
+        if ls: L.append("feature %s {%s} %s;" % (t, " ".join("lookup %s;" % x for x in ls), t))
+    fea = "\n".join(L)
+    fb = FontBuilder(1000, isTTF=True); fb.setupGlyphOrder(order); fb.setupCharacterMap({ord(c): c for c in base})
+    fb.setupGlyf({g: _box(adv[g]) for g in order}); fb.setupHorizontalMetrics({g: (adv[g], 20) for g in order})
+    fb.setupHorizontalHeader(ascent=800, descent=-200); fb.setupNameTable({"familyName": "Gen17", "styleName": "R"}); fb.setupOS2(); fb.setupPost()
+    addOpenTypeFeaturesFromString(fb.font, fea)
+    b = io.BytesIO(); fb.font.save(b)
+    return b.getvalue(), order, fea
+
 def sweeps(tier, rng):
     from fontTools.ttLib import TTFont
     from fontTools.ttLib.reorderGlyphs import reorderGlyphs
@@ -141,19 +206,32 @@ def sweeps(tier, rng):
     from lib.hb import HBFont, save_bytes
     nf = 5 if tier == "quick" else 20 if tier == "search" else 80
     def run_reorder():
-        for path in _fonts(rng, nf):
+        ngen = 12 if tier == "quick" else 30 if tier == "search" else 300
+        def generated():
+            for gi in range(ngen):
+                data, order, fea = glyph_rule_font(rng)
+                letters = "abcdefghij"
+                texts = list(letters) + [a + b for a in letters for b in letters] + ["".join(rng.choice(letters) for _ in range(rng.randint(3, 6))) for _ in range(150)]
+                yield "generated-glyph-rules-%d" % gi, data, texts
+        sources = [(corpus.rel(path), path, None) for path in _fonts(rng, nf)]
+        for label, path, texts in itertools.chain(sources, generated()):
             try:
-                f = TTFont(path); order = f.getGlyphOrder()
+                f = TTFont(path if isinstance(path, str) else io.BytesIO(path)); order = f.getGlyphOrder()
                 if len(order) > 3000: continue
                 data0 = save_bytes(f)
                 before = _glyph_geoms(data0, order)
-                texts = _text_for(f, rng)
+                if texts is None: texts = _text_for(f, rng)
                 h0 = HBFont(data0, order); sh0 = [h0.shape(t) for t in texts]
                 cm0 = dict(f.getBestCmap() or {})
             except Exception:
                 continue
             has_names = ("CFF " in f) or ("post" in f and f["post"].formatType == 2.0)
             if not has_names: continue        # synthetic glyphNNNNN names are tied to glyph ids
+            # duplicate names in 'post' are told apart by POSITION (A, A.1, A.2 in glyph order): "the glyph named A.1" is not
+            # a stable notion across a reordering of such an ill-formed font
+            if "post" in f and getattr(f["post"], "mapping", None): continue
+            # Graphite fonts cannot be saved once loaded (known finding F8 of C01, not specific to reordering)
+            if any(t in f for t in ("Silf", "Glat", "Gloc", "Feat", "Sill")): continue
             for mode in (("fresh", "inplace") if "glyf" in f else ("fresh",)):
                 try:
                     f2 = TTFont(io.BytesIO(data0))
@@ -179,9 +257,9 @@ def sweeps(tier, rng):
                             if h1.shape(t) != s0: bad = "text %r shapes differently after reordering: %r -> %r" % (t, s0, h1.shape(t)); break
                 except Exception as e:
                     bad = None if "post" in str(e).lower() else "reorderGlyphs raised %r" % (e,)
-                yield ((corpus.rel(path), "reorder", mode), bad)
+                yield ((label, "reorder", mode), bad)
     def run_scale():
-        fonts = [(corpus.rel(p), None, p) for p in _fonts(rng, nf)] + [("generated-variable-no-HVAR", variable_test_font(), None)]
+        fonts = [(corpus.rel(p), None, p) for p in _fonts(rng, nf)] + [("generated-variable-no-HVAR", variable_test_font(), None), ("generated-CFF-fractional-operands", fractional_cff_font(), None)]
         for label, fobj, path in fonts:
             for new_upem_f in (F(2), F(1, 2), F(2048, 1000)):
                 try:
